@@ -159,6 +159,15 @@ func c07(ctx *Ctx) {
 	}
 	flush()
 
+	replayConcurrentWinners(ctx, "C07/concurrent-winners")
+	c07process(ctx)
+}
+
+// replayConcurrentWinners: copies of one never-seen handshake presented at the same instant
+// (spin barrier) to the real ReplayCache: exactly one is accepted. Used by C07 (at most once)
+// and C19 (results equal to some sequential order of the calls).
+func replayConcurrentWinners(ctx *Ctx, sig string) {
+	r := ctx.Rng.Fork()
 	// concurrent presentations of one fresh handshake: exactly one winner (monitor only;
 	// the theorem is concurrent_one_winner).
 	batches := 1500
@@ -193,8 +202,7 @@ func c07(ctx *Ctx) {
 		}
 		ctx.Count("concurrent:batches")
 		if wins != 1 {
-			ctx.Monitor("C07/concurrent-winners", fmt.Sprintf("%d of %d concurrent presentations accepted", wins, G), map[string]interface{}{"cap": capacity})
+			ctx.Monitor(sig, fmt.Sprintf("%d of %d concurrent presentations accepted", wins, G), map[string]interface{}{"cap": capacity})
 		}
 	}
-	c07process(ctx)
 }
